@@ -13,6 +13,7 @@ import Mqtt5V.Model.Sender
 import Mqtt5V.Model.Replies
 import Mqtt5V.Model.Verdict
 import Mqtt5V.Model.Session
+import Driver.Trace
 /-! `mdrv`: the model behind a one-line-in / one-line-out protocol (DESIGN.md Appendix B).
 Imports Model/Spec/Gen only (no Mathlib, so it links as a native executable). -/
 open Mqtt5V
@@ -80,6 +81,7 @@ def pureStep (ws : List String) : String :=
       | some v => "ok " ++ String.intercalate "," (v.map toString)
       | none => "malformed"
     | _, _, _ => "bad-op"
+  | "trace" :: toks => Driver.Trace.step toks
   | "enc" :: _ => Driver.Codec.step ws
   | "dupenc" :: _ => Driver.Codec.step ws
   | "varlen" :: _ => Driver.Codec.step ws
